@@ -38,122 +38,26 @@ def _is_lower_if_str(e, var) -> bool:
     return isinstance(e.body, ast.Call) and attr_path(e.body.func) == f"{var}.lower" and not e.body.args and atom_name(e.orelse) == var
 
 
-@rule(P, "D19.1", "T-SHAPE", floor=5)
+@rule(P, "D19.1", "T-WITNESS", floor=5)
 def d19_1(ctx):
-    """MapMeta.__new__: members, lower-case aliases and the reverse map are all merged into _members_."""
-    meta = ctx.model.cls(f"{MAP}:MapMeta")
-    fn = meta.methods.get("__new__")
-    if fn is None:
-        ctx.undecided(ckey(meta.key + ".__new__"), meta.node, "anchor vanished")
-        return
-    comps = {}
-    for n in walk(fn):
-        if isinstance(n, ast.Assign) and isinstance(n.value, ast.DictComp) and isinstance(n.targets[0], ast.Name):
-            comps[n.targets[0].id] = n.value
-    merged = None
-    for n in walk(fn):
-        if isinstance(n, ast.Assign) and attr_path(n.targets[0]) and attr_path(n.targets[0]).endswith("._members_") and isinstance(n.value, ast.Dict):
-            merged = n
-    key = ckey(meta.key + ".__new__")
-    if merged is None:
-        ctx.violation(key + "#merge", fn, "_members_ is not assigned from a merge of the member dictionaries")
-        return
-    parts = [atom_name(v) for k, v in zip(merged.value.keys, merged.value.values) if k is None]
-    roles = {}
-    for name in parts:
-        dc = comps.get(name)
-        if dc is None:
-            # value_map may be assigned in both arms of the bidirectional test
-            continue
-        gen = dc.generators[0]
-        if not (isinstance(gen.target, ast.Tuple) and len(gen.target.elts) == 2):
-            continue
-        k, v = atom_name(gen.target.elts[0]), atom_name(gen.target.elts[1])
-        kk, vv = dc.key, dc.value
-        if atom_name(kk) == k and atom_name(vv) == v:
-            roles["members"] = (name, dc)
-        elif isinstance(kk, ast.Call) and attr_path(kk.func) == f"{k}.lower" and atom_name(vv) == v:
-            roles["lower"] = (name, dc)
-        elif isinstance(kk, ast.Call) and len(kk.args) == 1 and atom_name(kk.args[0]) == v and isinstance(vv, ast.Call) and attr_path(vv.func) == f"{k}.lower":
-            roles["reverse"] = (name, dc)
-    ctx.check("members" in roles, key + "#members", merged, "member names map to their values", "_members_ no longer contains name -> value", parts=parts)
-    ctx.check("lower" in roles, key + "#lower", merged, "lower-case aliases are merged", "_members_ no longer contains the lower-case aliases: mixed-case names cannot be looked up", parts=parts)
-    ctx.check("reverse" in roles, key + "#reverse", merged, "reverse map value_key(value) -> name.lower() is merged", "_members_ no longer contains value_key(value) -> lower-case name: codes do not resolve back to names", parts=parts)
-    # member filter
-    if "members" in roles:
-        dc = roles["members"][1]
-        gen = dc.generators[0]
-        k, v = atom_name(gen.target.elts[0]), atom_name(gen.target.elts[1])
-        conds = []
-        for c in gen.ifs:
-            conds += c.values if isinstance(c, ast.BoolOp) and isinstance(c.op, ast.And) else [c]
-        priv = any(isinstance(c, ast.UnaryOp) and isinstance(c.op, ast.Not) and isinstance(c.operand, ast.Call) and attr_path(c.operand.func) == f"{k}.startswith" and ctx.folder.eval(c.operand.args[0], meta.module) == "_" for c in conds)
-        meth = any(isinstance(c, ast.UnaryOp) and isinstance(c.op, ast.Not) and isinstance(c.operand, ast.Call) and call_name(c.operand) == "isinstance" and atom_name(c.operand.args[0]) == v for c in conds)
-        src_ok = atom_name(gen.iter) == "classdict.items()"
-        ctx.check(priv and meth and src_ok and len(conds) == 2, key + "#filter", dc, "members = public class-body names that are not class/static methods", "member selection changed (private names / methods filter)", conditions=[src(c) for c in conds])
-    # the reverse map is keyed through _value_key_ with identity default and is on by default
-    if "reverse" in roles:
-        dc = roles["reverse"][1]
-        fnname = call_name(dc.key)
-        assign = [n for n in walk(fn) if isinstance(n, ast.Assign) and atom_name(n.targets[0]) == fnname]
-        good = False
-        if assign and isinstance(assign[0].value, ast.Call) and (attr_path(assign[0].value.func) or "").endswith("__dict__.get"):
-            a = assign[0].value.args
-            dflt = ctx.folder.eval(a[1], meta.module) if len(a) > 1 else UNKNOWN
-            ident = isinstance(dflt, FuncRef) and isinstance(dflt.node, ast.FunctionDef) and len(dflt.node.body) == 1 and isinstance(dflt.node.body[0], ast.Return) and atom_name(dflt.node.body[0].value) == dflt.node.args.args[0].arg
-            good = ctx.folder.eval(a[0], meta.module) == "_value_key_" and ident
-        ctx.check(good, key + "#value-key", dc, "reverse key = _value_key_(value), identity by default", "reverse map key function is not `_value_key_` with an identity default")
-        bid = None
-        p = getattr(dc, "_parent", None)
-        while p is not None and p is not fn:
-            if isinstance(p, ast.If):
-                bid = p
-            p = getattr(p, "_parent", None)
-        good = bid is not None and isinstance(bid.test, ast.Call) and (attr_path(bid.test.func) or "").endswith("__dict__.get") and ctx.folder.eval(bid.test.args[0], meta.module) == "_bidirectional_" and len(bid.test.args) == 2 and ctx.folder.eval(bid.test.args[1], meta.module) is True
-        ctx.check(good or bid is None, key + "#bidirectional", bid or dc, "reverse map built unless _bidirectional_ is explicitly false", "reverse map is no longer on by default")
+    """MapMeta.__new__: public members, their lower-case aliases and (unless switched off) the reverse map keyed by the value or
+    its `_value_key_` are merged into the one lookup table; private names and class / static methods are not members.  Decided by
+    folding `__new__` on witness class bodies (D19.9).  An earlier form matched the three dict comprehensions and the `{**a, **b,
+    **c}` merge and alarmed when the same table was built by loops."""
+    from .driver import _mapmeta_rule
+
+    _mapmeta_rule(ctx)
 
 
-@rule(P, "D19.2", "T-DOM", floor=4)
+@rule(P, "D19.2", "T-WITNESS", floor=4)
 def d19_2(ctx):
-    """__getitem__, get and __contains__ lower-case str keys before consulting the same _members_ map; caps-only handling identical."""
-    meta = ctx.model.cls(f"{MAP}:MapMeta")
-    mod = meta.module
-    norm_funcs = set()
-    for name, s in mod.symbols.items():
-        if s.kind == "func" and len(s.node.args.args) == 1:
-            body = [b for b in s.node.body if not (isinstance(b, ast.Expr) and isinstance(b.value, ast.Constant))]
-            if len(body) == 1 and isinstance(body[0], ast.Return) and _is_lower_if_str(body[0].value, s.node.args.args[0].arg):
-                norm_funcs.add(name)
-    caps = {}
-    for mname, op in (("__getitem__", "__getitem__"), ("get", "get"), ("__contains__", "__contains__")):
-        fn = meta.methods.get(mname)
-        key = ckey(f"{meta.key}.{mname}")
-        if fn is None:
-            ctx.violation(key, meta.node, f"MapMeta.{mname} is missing: lookups by {mname} fall back to type/object behaviour")
-            continue
-        item = fn.args.args[1].arg
-        uses = []
-        for n in walk(fn):
-            if isinstance(n, ast.Call) and isinstance(n.func, ast.Attribute) and attr_path(n.func.value) == "cls._members_" and n.args:
-                uses.append((n.func.attr, n.args[0]))
-            if isinstance(n, ast.Subscript) and attr_path(n.value) == "cls._members_":
-                uses.append(("__getitem__", n.slice))
-            if isinstance(n, ast.Compare) and len(n.ops) == 1 and isinstance(n.ops[0], ast.In) and attr_path(n.comparators[0]) == "cls._members_":
-                uses.append(("__contains__", n.left))
-        if len(uses) != 1:
-            ctx.violation(key, fn, f"expected exactly one lookup in cls._members_, found {len(uses)}")
-            continue
-        u_op, arg = uses[0]
-        same_op = u_op == op
-        normalised = _is_lower_if_str(arg, item) or (isinstance(arg, ast.Call) and call_name(arg) in norm_funcs and len(arg.args) == 1 and atom_name(arg.args[0]) == item)
-        ctx.check(same_op and normalised, key, fn, f"{mname}: str keys are lower-cased before cls._members_.{u_op}",
-                  f"{mname} consults cls._members_.{u_op}({src(arg)}): the key is not lower-cased-if-str (case-insensitive lookup / consistent membership broken)", key_expr=src(arg))
-        if mname in ("__getitem__", "get"):
-            ifs = [n for n in walk(fn) if isinstance(n, ast.If)]
-            caps[mname] = [dump(i) for i in ifs]
-            good = len(ifs) == 1 and _caps_if(ifs[0])
-            ctx.check(good, key + "#caps", ifs[0] if ifs else fn, "caps-only tables upper-case str results", "the _return_caps_only_ post-processing is not `if cls._return_caps_only_ and isinstance(val, str): val = val.upper()`")
-    ctx.check(caps.get("__getitem__") == caps.get("get") and caps.get("get"), ckey(meta.key, "caps-sibling"), meta.node, "__getitem__ and get post-process results identically", "__getitem__ and get treat caps-only results differently")
+    """`[]`, `get` and `in` fold text keys to lower case before consulting the same table; `[]` raises KeyError for a missing key;
+    caps-only tables upper-case text results in `[]` and `get` alike.  Decided by folding the three methods on witness tables and
+    keys (D19.9).  An earlier form compared the statements of `__getitem__` and `get` and alarmed when the shared post-processing
+    was moved into a helper."""
+    from .driver import _mapmeta_rule
+
+    _mapmeta_rule(ctx)
 
 
 def _caps_if(i: ast.If) -> bool:
